@@ -17,6 +17,11 @@ the three model operations on the implementation side (`finalize:sec`, `clean:se
 for the model; an `edit:*` op (the harness changes the cleaned document between two cycles) starts
 a new segment: the model is asked again from the snapshot after the edit.
 
+Round 4 (design.d/C12.md): the text of an include is cut into URL and path by the model
+(Link.splitFirst, theorems include_text_designates / finalize_step_at_include); request `split`
+ties that cut to the implementation (see include_candidates and compare). Objects may come from
+Section.clone() / Document.clone() (`recycle`, `twin_by`), names may hold '#', '?', '%', ...
+
 Reading of the quantifier (see design.d/C12.md, round 3): "(no chained or nested links)" is taken
 to exclude a linking Section below another linking Section as well (the weaker reading; it is
 what Link.inRegime has formalised since the design round), so linking Sections stay pairwise
@@ -28,6 +33,11 @@ import os
 import shutil
 import sys
 import tempfile
+
+try:
+    from urllib.request import pathname2url
+except ImportError:
+    from urllib import pathname2url
 
 import framework as fw
 import c13 as m
@@ -74,6 +84,15 @@ SAFE_RICH = dict(SAFE, **{
     "datetime": [m.dt.datetime(2020, 1, 2, 12, 30, 0), m.dt.datetime(2021, 12, 28, 1, 2, 3)]})
 NONASCII = ["sé", "名前", "ä b", "Ω"]        # names of generated objects
 OWN_NONASCII = ["öwn", "自分"]                          # own children of linking Sections
+# round 4: names holding the characters that are delimiters of the reference syntax (the '#' of
+# `URL#path`, what a URL gives a meaning to: ? % & + = ; @ :, mark-up characters) - "shank #1", "50%"
+DELIM = ["shank #1", "a#b", "#x", "y#", "n#1#2", "tip #2", "q?r", "50%", "x&y", "a:b", "p+q", "k=v", "s;t",
+         "@h", "a.b", "t~1", "it's", "<b>", "%23", "a b"]
+OWN_DELIM = ["own #1", "o?p", "o%1", "#o"]
+# round 4: names of the included files (URL = "file://" + the path as it is, or percent-quoted)
+FNAMES = [("t %d %s.xml", False), ("t %d %s.xml", True), ("t\u00e4%d_%s.xml", False), ("t\u00e4%d_%s.xml", True),
+          ("t#%d_%s.xml", True), ("t?%d_%s.xml", True), ("t+%d_%s.xml", False), ("t%%41_%d_%s.xml", True),
+          ("t%d.%s", False)]
 CARDS = [[1, 4], [None, 3], [2, None], [0, 12], [1, 10]]             # never (n, n): C01/C02/C09's business
 RELOADS = ["reload", "reload:xml-file", "reload:json", "reload:json-file", "reload:yaml",
            "reload:yaml-file"]
@@ -151,9 +170,26 @@ def plain_sec(rng, name, depth, names=None, rich=None):
         s["def"] = rng.choice(["Def one", "other text"])
     if rng.random() < 0.3:
         s["ref"] = rng.choice(["ref A", "x"])
+    # round 4: the Sections below carry a definition / reference as well (before, only the top of
+    # a generated tree did: a target two levels down never had anything to hand on), several texts
+    for c in s["secs"]:
+        sprinkle_texts(rng, c)
     if rich is not None:
         enrich_sec(rng, s)
     return s
+
+
+DEFS = ["Def one", "other text", "third def", "D 4", "a longer definition, with a comma"]
+REFS = ["ref A", "x", "ref B", "r:4"]
+
+
+def sprinkle_texts(rng, s):
+    if rng.random() < 0.35:
+        s["def"] = rng.choice(DEFS)
+    if rng.random() < 0.3:
+        s["ref"] = rng.choice(REFS)
+    for c in s["secs"]:
+        sprinkle_texts(rng, c)
 
 
 def restyle(rng, secs, p_un, p_na, pool=NONASCII):
@@ -271,9 +307,14 @@ def gen_edits(rng, ops, doc, linkers, link_targets, clashing):
     for _ in range(rng.choice([1, 1, 2])):
         k = rng.randrange(len(linkers))
         kinds = ["own-"] if k in clashing else ["own+", "own+", "own-"]
+        # round 4: the linking Section's own definition / reference set or taken away between cycles
+        kinds.append("own~def")
         tp = link_targets.get(k)
         if tp is not None:
             kinds += ["t+sec", "t+sec", "t+prop", "t~", "t~"]
+            # round 4: the target's own definition / reference changed between cycles (the next
+            # resolution has other values to hand on than the last one)
+            kinds += ["t~def", "t~def"]
             tnode = node(doc, tp)
             # nothing is taken out of a target while some linking Section has own children named
             # like a target's: an own Section could end up named like a Property of the target
@@ -302,6 +343,12 @@ def gen_case(rng, tier):
     rich_f = {"unc": False} if rich is not None else None     # include files go through XML
     p_un = 0.3 if rng.random() < 0.4 else 0.0
     p_na = 0.25 if rng.random() < 0.15 else 0.0
+    pool, own_pool = NONASCII, OWN_NONASCII
+    if rng.random() < 0.15:
+        # round 4: names with '#', '?', '%', ... anywhere (in the path of an include or a link, in
+        # the children that are copied, in linking Sections and their own children)
+        p_na = rng.choice([0.3, 0.5])
+        pool, own_pool = (DELIM, OWN_DELIM) if rng.random() < 0.8 else (DELIM + NONASCII, OWN_DELIM + OWN_NONASCII)
     # top-level trees of depth 1-3, now and then 4 (linking Sections and targets four levels down)
     doc = [plain_sec(rng, n, 4 if rng.random() < 0.04 else rng.choice([1, 2, 2, 3]), rich=rich)
            for n in rng.sample(m.NAMES, rng.choice([2, 3, 4]))]
@@ -309,9 +356,9 @@ def gen_case(rng, tier):
     for key in rng.sample(["f1", "f2"], rng.choice([0, 1, 1, 2])):
         files[key] = [plain_sec(rng, n, rng.choice([1, 2]), rich=rich_f) for n in rng.sample(m.NAMES, rng.choice([1, 2]))]
     if p_un or p_na:
-        restyle(rng, doc, p_un, p_na)
+        restyle(rng, doc, p_un, p_na, pool)
         for key in sorted(files):
-            restyle(rng, files[key], p_un, p_na)
+            restyle(rng, files[key], p_un, p_na, pool)
     paths = all_paths(doc)
     rng.shuffle(paths)
     linkers = []
@@ -364,8 +411,8 @@ def gen_case(rng, tier):
                      for n in rng.sample(OWN_NAMES, rng.choice([0, 1, 2]))]
         l["props"] = [simple_prop(rng, n, rich) for n in rng.sample(OWN_NAMES, rng.choice([0, 1, 2]))]
         if p_un or p_na:
-            restyle(rng, l["secs"], p_un, p_na, OWN_NONASCII)
-            restyle_list(rng, l["props"], p_un, p_na, OWN_NONASCII)
+            restyle(rng, l["secs"], p_un, p_na, own_pool)
+            restyle_list(rng, l["props"], p_un, p_na, own_pool)
         if clash:
             for c in tnode["secs"][:rng.choice([1, 2])]:
                 # same name and type (another type is C13's known finding); content: a pruned
@@ -378,6 +425,11 @@ def gen_case(rng, tier):
                         pp["values"] = pp["values"][:1]
                 if rng.random() < 0.3:
                     own["def"] = "own def"
+                elif rng.random() < 0.4:
+                    # round 4: no definition / reference of its own (the merge with the target's
+                    # child of that name fills them in, one level down)
+                    own["def"] = None
+                    own["ref"] = None
                 forget_ids(own)
                 l["secs"].append(own)
             for q in tnode["props"][:rng.choice([0, 1])]:
@@ -426,6 +478,31 @@ def gen_case(rng, tier):
             # both documents go through the history step by step (both are merged with the one
             # cached copy of an included Section at the same time)
             case["twin"] = "lockstep"
+        if rng.random() < 0.3:
+            # round 4: the second document is a clone of the first (Document.clone(), made before
+            # any resolution), not a second construction
+            case["twin_by"] = "clone"
+    if len(linkers) >= 2 and rng.random() < 0.3:
+        # round 4, where the objects come from: a linking Section that started as a clone of
+        # another linking Section of the document (Section.clone() - "one more of the same kind"),
+        # emptied, renamed, pointed at its own target and given its own children. Whatever a clone
+        # shares with its original beyond the public attributes is shared by two linking Sections
+        # that are resolved and cleaned side by side.
+        has_reload = any(kind_of(o) == "reload" for o in ops)
+        order = list(range(len(linkers)))
+        rng.shuffle(order)
+        pairs = []
+        for j in order[:rng.choice([1, 1, 2])]:
+            i = rng.choice([x for x in range(len(linkers)) if x != j])
+            modes = ["fresh", "fresh", "cycled", "bare"]
+            if not has_reload and not node(doc, linkers[j]).get("unnamed"):
+                modes.append("keepid")     # two Sections with one id: fine until a writer validates
+            pairs.append([j, i, rng.choice(modes)])
+        case["recycle"] = pairs
+    if pool is not NONASCII:
+        case["style"] = "delim"
+    if files and rng.random() < 0.2:
+        case["fname"] = rng.randrange(len(FNAMES))      # round 4: the file name / URL spelling
     if rng.random() < 0.12:
         # construction order: every Section and Property is created without a parent (a linking
         # Section with its link / include already set) and appended when it is complete
@@ -590,6 +667,28 @@ def canon_include(sec, keys):
         return {"w": "unresolvable include %r: %s" % (inc, fw.exc_name(exc))}
 
 
+def include_candidates(text, keys):
+    """Every way of reading an include text as URL + path - the whole text as the URL, and a cut at
+    each '#' - with what the implementation's own loader and path lookup make of it:
+    [url, path or None, "key#/abs/path" or None]. Which of them is the reading of the include
+    setter is the model's answer (Link.splitFirst, request `split`), see compare."""
+    from odml import terminology
+    cuts = [(text, None)] + [(text[:k], text[k + 1:]) for k, ch in enumerate(text) if ch == "#"]
+    out = []
+    for url, path in cuts:
+        canon = None
+        if url in keys:            # only documents of this case are ever asked for
+            try:
+                term = terminology.load(url)
+                tgt = term.sections[0] if path is None else term.get_section_by_path(path)
+                if hasattr(tgt, "sections") and hasattr(tgt, "properties"):
+                    canon = "%s#%s" % (keys[url], tgt.get_path())
+            except Exception:
+                canon = None
+        out.append([url, path, canon])
+    return out
+
+
 def canon_repo(url):
     if url is None:
         return None
@@ -690,6 +789,51 @@ def refused_calls(doc):
                 pass
 
 
+def recycle(doc, case, j, i, mode, urls, late):
+    """Linking Section j of the document is replaced, in place, by one that started as a clone of
+    linking Section i: emptied, given the attributes, the reference and the children of j's
+    description. mode: `fresh` (the source was never resolved), `bare` (clone(children=False)),
+    `cycled` (the source was resolved and cleaned once before), `keepid` (clone(keep_id=True))."""
+    src = section_at(doc, case["linkers"][i])
+    old = section_at(doc, case["linkers"][j])
+    spec = node(case["doc"], case["linkers"][j])
+    if mode == "cycled":
+        src.merge()
+        src.clean()
+    new = src.clone(children=(mode != "bare"), keep_id=(mode == "keepid"))
+    for child in list(new.sections) + list(new.properties):
+        new.remove(child)
+    # the clone has no parent: the setters store the reference unresolved
+    if new.link is not None:
+        new.link = None
+    if new.include is not None:
+        new.include = None
+    if spec.get("unnamed"):
+        new.new_id(spec["name"])
+        new.name = None
+    else:
+        new.name = spec["name"]
+    new.type = spec["type"]
+    new.definition = spec["def"]
+    new.reference = spec["ref"]
+    new.repository = repo_url() if spec.get("repo") else None
+    new.sec_cardinality = card_in(spec.get("scard"))
+    new.prop_cardinality = card_in(spec.get("pcard"))
+    if spec.get("link") is not None:
+        new.link = spec["link"]
+    elif spec.get("incl") is not None:
+        key, _, rest = spec["incl"][5:].partition("#")
+        new.include = urls[key] + (("#" + rest) if "#" in spec["incl"] else "")
+    for p in spec["props"]:
+        build_prop(p, new, late)
+    for c in spec["secs"]:
+        build_tree(c, new, urls, late)
+    parent = old.parent
+    pos = [k for k, s in enumerate(parent.sections) if s is old][0]
+    parent.remove(old)
+    parent.insert(pos, new)
+
+
 def apply_edit(doc, op, idx, case):
     """`edit:<what>:<k>`: change the (cleaned) document around linking Section k; see gen_edits."""
     import odml
@@ -705,6 +849,11 @@ def apply_edit(doc, op, idx, case):
         elif len(linker.properties):
             linker.remove(linker.properties[0])
         return
+    if what == "own~def":
+        linker.definition = None if linker.definition is not None else "own text %d" % idx
+        if idx % 2:
+            linker.reference = None if linker.reference is not None else "own ref %d" % idx
+        return
     target = linker.get_section_by_path(linker.link)
     if what == "t+sec":
         sec = odml.Section(name="e%d" % idx, type="et", definition="added later", parent=target)
@@ -717,6 +866,9 @@ def apply_edit(doc, op, idx, case):
     elif what == "t-prop":
         if len(target.properties):
             target.remove(target.properties[0])
+    elif what == "t~def":
+        target.definition = None if (target.definition is not None and idx % 2) else "redefined %d" % idx
+        target.reference = None if (target.reference is not None and idx % 3 == 0) else "reref %d" % idx
     elif what == "t~":
         if len(target.properties):
             target.properties[0].unit = "kV"
@@ -833,7 +985,10 @@ class C12(fw.Check):
         "finalize_step_not_linker",
         "finalize_step_at_linker",
         "finalize_step_frame",
-        "finalize_loop_frame"]]
+        "finalize_loop_frame",
+        "include_text_designates",
+        "include_text_without_path",
+        "finalize_step_at_include"]]
     trusted_base = [
         "Lean 4.33.0 kernel; axioms propext, Classical.choice, Quot.sound only (audited per theorem)",
         "hand-written models lean/OdmlModel/Model/Link.lean and Model/Merge.lean, tied to /repo by "
@@ -871,7 +1026,16 @@ class C12(fw.Check):
             "without a parent and appended when complete, cardinalities of a linking Section that "
             "the copies exceed, own children with sub-trees of depth 2-3, two documents of one "
             "description in lockstep. A linking Section below another linking Section is read as a "
-            "nested link (outside the quantifier) and not generated. "
+            "nested link (outside the quantifier) and not generated. Round 4: names holding the "
+            "delimiters of the reference syntax ('#' of URL#path, ? % & ; = : < >) anywhere, in "
+            "particular on the path of an include or a link; the model's cut of every stored include "
+            "text into URL and path (Link.splitFirst) is tied to the implementation through its own "
+            "loader and path lookup; included files under names with blanks, non-ASCII and quoted "
+            "characters (URL as it is / percent-quoted); linking Sections that started as a clone of "
+            "another linking Section (with / without children, id kept, of a Section resolved and "
+            "cleaned before); the second document a Document.clone() of the first; definitions / "
+            "references on Sections at every depth (several texts); a target's and a linking "
+            "Section's own definition / reference changed between cycles. "
             "Non-trivial = at least one target has children; distinct = distinct canonical JSON.")
 
     def generate(self, tier, rng):
@@ -890,24 +1054,32 @@ class C12(fw.Check):
         tmp = private_dir()
         _PRIVATE["n"] += 1
         urls, keys, written = {}, {}, []
+        from odml import terminology
+        pattern, quoted = ("t%d_%s.xml", False) if case.get("fname") is None else FNAMES[case["fname"]]
         for key, secs in sorted(case["files"].items()):
-            path = os.path.join(tmp, "t%d_%s.xml" % (_PRIVATE["n"], key))
+            path = os.path.join(tmp, pattern % (_PRIVATE["n"], key))
             odml.save(build_doc(secs), path)
             written.append(path)
-            urls[key] = "file://" + path
+            urls[key] = "file://" + (pathname2url(path) if quoted else path)
             keys[urls[key]] = key
+            # loaded before any object refers to it (an include set on a parentless Section then
+            # finds the document and starts no loader thread)
+            terminology.load(urls[key])
         late = case.get("attach") == "late"
 
         def fresh():
             d = build_doc([], case.get("docattrs"))
             for spec in case["doc"]:
                 build_tree(spec, d, urls, late)
+            for j, i, mode in case.get("recycle", []):
+                recycle(d, case, j, i, mode, urls, late)
             return d
         doc = fresh()
         # a second document from the same description, built now and used after the first one in
         # the same process: same include URLs (one cached terminology document serves both)
-        twin = fresh() if case.get("twin") else None
-        from odml import terminology
+        twin = None
+        if case.get("twin"):
+            twin = doc.clone() if case.get("twin_by") == "clone" else fresh()
 
         def snap_files():
             out = {}
@@ -916,6 +1088,16 @@ class C12(fw.Check):
                 out[key] = snap_doc(term, keys) if term is not None else None
             return out
         files = snap_files()
+        # the include texts as stored, with every reading of them (see include_candidates)
+        includes = []
+        for lp in case["linkers"]:
+            try:
+                sec = section_at(doc, lp)
+            except Exception:
+                continue
+            if sec.include is not None:
+                includes.append({"at": list(lp), "raw": sec.include,
+                                 "cands": include_candidates(sec.include, keys)})
 
         class Run(object):
             """One document going through the history, one step at a time."""
@@ -977,7 +1159,7 @@ class C12(fw.Check):
                 os.remove(path)
             except OSError:
                 pass
-        out = {"states": states, "files": files, "files_after": files_after}
+        out = {"states": states, "files": files, "files_after": files_after, "includes": includes}
         if twin_states is not None:
             out["twin_states"] = twin_states
         return out
@@ -1016,6 +1198,9 @@ class C12(fw.Check):
                 return []
             reqs.append({"op": "cycle", "doc": init, "files": mfiles,
                          "ops": self.model_ops([states[i]["op"] for i in steps])})
+        # the text of every include, as stored: where does the model cut it into URL and path?
+        for info in obs.get("includes", []):
+            reqs.append({"op": "split", "text": info["raw"]})
         return reqs
 
     def compare(self, case, obs, answers):
@@ -1025,10 +1210,22 @@ class C12(fw.Check):
         out = []
         states = obs["states"]
         mfiles = dict((k, narrow(v)) for k, v in obs["files"].items())
-        for (start, steps), a in zip(self.segments(states), answers):
+        segs = self.segments(states)
+        for (start, steps), a in zip(segs, answers):
             out += self.compare_segment(case, states, start, steps, a, mfiles)
             if out:
                 break
+        # include texts: the model's cut (Link.splitFirst = `split('#', 1)`), read by the
+        # implementation's own loader and path lookup, has to designate the Section the canonical
+        # snapshot names - the one whose children the implementation copies (compared above)
+        for info, a in zip(obs.get("includes", []), answers[len(segs):]):
+            l = lookup(states[0]["doc"], info["at"])
+            hit = [c for c in info["cands"] if c[0] == a["url"] and c[1] == a["path"]]
+            if len(hit) != 1 or l is None or hit[0][2] is None or hit[0][2] != l["incl"]:
+                out.append("include text %r of %s: the model reads URL %r path %r -> %s, the "
+                           "implementation's reference designates %s"
+                           % (info["raw"], info["at"], a["url"], a["path"],
+                              hit[0][2] if hit else None, l["incl"] if l else None))
         return out
 
     def compare_segment(self, case, states, start, steps, a, mfiles):
@@ -1264,6 +1461,12 @@ class C12(fw.Check):
         for k in ("edit", "copy", "noop"):
             if k in opkinds:
                 extra += ":" + k
+        if case.get("recycle"):
+            extra += ":recycle"
+        if case.get("fname") is not None:
+            extra += ":fname"
+        if case.get("style"):
+            extra += ":" + case["style"]
         if case.get("attach"):
             extra += ":late"
         return ("cycle:%s:%s:%s%s" % ("+".join(sorted(kinds)), "clash" if case["clash"] else "noclash",
